@@ -58,60 +58,7 @@ func checkC16(r *core.Run) {
 	}
 	sort.Slice(fns, func(i, j int) bool { return fns[i].String() < fns[j].String() })
 
-	// ---- (a) sorted before store
-	nSites := 0
-	for _, fn := range fns {
-		k := 0
-		for _, b := range fn.Blocks {
-			for _, ins := range b.Instrs {
-				st, ok := ins.(*ssa.Store)
-				if !ok {
-					continue
-				}
-				fa, ok := st.Addr.(*ssa.FieldAddr)
-				if !ok || fieldOfAddr(fa) != opField {
-					continue
-				}
-				k++
-				nSites++
-				inst := fmt.Sprintf("C16/SORTED:%s:store%d", core.SSAFuncKey(fn), k)
-				pos := prog.Pos(st.Pos())
-				if isCopyOfOp(st.Val, opField) {
-					r.OK("C16/SORTED", inst, pos, "copy of another machine's opcode list (made with its length); order is inherited")
-					continue
-				}
-				if fn.Name() == "Dejsoner" {
-					r.OK("C16/SORTED", inst, pos, "loader: order is the saved order")
-					continue
-				}
-				sorted := false
-				for _, b2 := range fn.Blocks {
-					for _, i2 := range b2.Instrs {
-						call, ok := i2.(*ssa.Call)
-						if !ok {
-							continue
-						}
-						callee := call.Call.StaticCallee()
-						if callee == nil || callee.Pkg == nil || callee.Pkg.Pkg.Path() != "sort" || (callee.Name() != "Sort" && callee.Name() != "Stable") {
-							continue
-						}
-						if len(call.Call.Args) != 1 {
-							continue
-						}
-						if sortedValue(call.Call.Args[0]) == stripConv(st.Val) && strings.HasSuffix(sortArgType(call.Call.Args[0]), "ByName") && instrDominates(call, st) {
-							sorted = true
-						}
-					}
-				}
-				if sorted {
-					r.OK("C16/SORTED", inst, pos, "sort.Sort(ByName(v)) on the stored slice dominates the store")
-				} else {
-					r.Violation("C16/SORTED", inst, pos, fmt.Sprintf("%s stores an opcode list into Conproc.Op that was not sorted by name on every path (no sort.Sort(ByName(v)) of the very slice stored dominates the store): opcode numbering — the index in Op — then depends on collection order, and Write_opcodes_verilog/Decode_opcode/OnlyOne assume a name-sorted list", core.SSAFuncKey(fn)))
-				}
-			}
-		}
-	}
-	r.Count("conproc_op_store_sites", nSites)
+	opListSorted(r, prog, "C16", opField, fns)
 
 	// ---- (a') at most one append per registry element
 	nLoops := 0
@@ -474,4 +421,63 @@ func storesAfter(from ssa.Instruction, kill ssa.Value) []*ssa.Store {
 	}
 	walk(from.Block(), instrIndex(from)+1)
 	return out
+}
+
+// opListSorted: every store to Conproc.Op stores a slice that was sorted by name (rule shared by C16 and C07).
+func opListSorted(r *core.Run, prog *core.Program, prop string, opField *types.Var, fns []*ssa.Function) {
+	// ---- (a) sorted before store
+	nSites := 0
+	for _, fn := range fns {
+		k := 0
+		for _, b := range fn.Blocks {
+			for _, ins := range b.Instrs {
+				st, ok := ins.(*ssa.Store)
+				if !ok {
+					continue
+				}
+				fa, ok := st.Addr.(*ssa.FieldAddr)
+				if !ok || fieldOfAddr(fa) != opField {
+					continue
+				}
+				k++
+				nSites++
+				inst := fmt.Sprintf("%s/SORTED:%s:store%d", prop, core.SSAFuncKey(fn), k)
+				pos := prog.Pos(st.Pos())
+				if isCopyOfOp(st.Val, opField) {
+					r.OK(prop+"/SORTED", inst, pos, "copy of another machine's opcode list (made with its length); order is inherited")
+					continue
+				}
+				if fn.Name() == "Dejsoner" {
+					r.OK(prop+"/SORTED", inst, pos, "loader: order is the saved order")
+					continue
+				}
+				sorted := false
+				for _, b2 := range fn.Blocks {
+					for _, i2 := range b2.Instrs {
+						call, ok := i2.(*ssa.Call)
+						if !ok {
+							continue
+						}
+						callee := call.Call.StaticCallee()
+						if callee == nil || callee.Pkg == nil || callee.Pkg.Pkg.Path() != "sort" || (callee.Name() != "Sort" && callee.Name() != "Stable") {
+							continue
+						}
+						if len(call.Call.Args) != 1 {
+							continue
+						}
+						if sortedValue(call.Call.Args[0]) == stripConv(st.Val) && strings.HasSuffix(sortArgType(call.Call.Args[0]), "ByName") && instrDominates(call, st) {
+							sorted = true
+						}
+					}
+				}
+				if sorted {
+					r.OK(prop+"/SORTED", inst, pos, "sort.Sort(ByName(v)) on the stored slice dominates the store")
+				} else {
+					r.Violation(prop+"/SORTED", inst, pos, fmt.Sprintf("%s stores an opcode list into Conproc.Op that was not sorted by name on every path (no sort.Sort(ByName(v)) of the very slice stored dominates the store): opcode numbering — the index in Op — then depends on collection order, and Write_opcodes_verilog/Decode_opcode/OnlyOne assume a name-sorted list", core.SSAFuncKey(fn)))
+				}
+			}
+		}
+	}
+	r.Count("conproc_op_store_sites", nSites)
+
 }
